@@ -68,16 +68,27 @@ class NSMonitor:
             ctx.violation("NS-LIVE", {"where": where, "what": "duplicated live point",
                                       "iteration": int(ns.iteration)})
 
+    @staticmethod
+    def awaiting(ns):
+        """True if the sampler is in its explicit 'worst point removed, not yet
+        replaced' phase (a consistent durable state of repaired trees)."""
+        return getattr(ns, "_awaiting_replacement", False) is True
+
     def check_counts(self, ns, where):
         n_ns = len(ns.nested_samples)
+        pending = 1 if self.awaiting(ns) else 0
         counts = {
             "nested_samples": n_ns,
             "iteration": int(ns.iteration),
-            "insertion_indices": len(ns.insertion_indices),
+            "insertion_indices": len(ns.insertion_indices) + pending,
             "state_entries": len(ns.state.logLs) - 1,
         }
         if len(set(counts.values())) != 1:
-            self.ctx.violation("NS-DEAD-counts", {"where": where, **counts})
+            self.ctx.violation("NS-DEAD-counts", {"where": where, "awaiting_replacement": bool(pending), **counts})
+        if pending and n_ns and ns.live_points is not None:
+            if _rec_bytes(ns.nested_samples[-1]) != _rec_bytes(ns.live_points[0]):
+                self.ctx.violation("NS-DEAD-counts", {"where": where, "what": "awaiting replacement but the last "
+                                                      "discarded point is not the current minimum"})
 
     def check_values(self, rec, where, it):
         m = self._model()
@@ -127,16 +138,19 @@ class NSMonitor:
                             if len(mon.dead_seen) != len(ns.nested_samples):
                                 ctx.violation("NS-DEAD-duplicate", {"where": "after-resume"})
                     old = ns.live_points.copy()
-                    n_ns = len(ns.nested_samples)
+                    pending = mon.awaiting(ns)
+                    n_ns = len(ns.nested_samples) - (1 if pending else 0)
                     n_idx = len(ns.insertion_indices)
-                    n_ll = len(ns.state.logLs)
-                    it0 = int(ns.iteration)
+                    n_ll = len(ns.state.logLs) - (1 if pending else 0)
+                    it0 = int(ns.iteration) - (1 if pending else 0)
                     logLmax0 = float(ns.logLmax)
+                    if pending:
+                        ctx.probe("resumed_awaiting_replacement")
                 ctx.phase = "consume"
                 out = orig(ns)
                 ctx.phase = "loop"
                 with ctx.guard():
-                    mon.after_consume(ns, old, n_ns, n_idx, n_ll, it0, logLmax0)
+                    mon.after_consume(ns, old, n_ns, n_idx, n_ll, it0, logLmax0, pending)
                 return out
             return consume_sample
 
@@ -225,7 +239,7 @@ class NSMonitor:
         _wrap(FlowProposal, "backward_pass", mk_backward)
 
     # -- checks ----------------------------------------------------------
-    def after_consume(self, ns, old, n_ns, n_idx, n_ll, it0, logLmax0):
+    def after_consume(self, ns, old, n_ns, n_idx, n_ll, it0, logLmax0, pending=False):
         ctx = self.ctx
         it = int(ns.iteration)
         self.iter_checked += 1
@@ -238,7 +252,7 @@ class NSMonitor:
             if _rec_bytes(dead) != _rec_bytes(old[0]):
                 ctx.violation("NS-REPLACE-removed-not-minimum", {"iteration": it})
             b = _rec_bytes(dead)
-            if b in self.dead_seen:
+            if b in self.dead_seen and not pending:
                 ctx.violation("NS-DEAD-duplicate", {"iteration": it, "logL": float(dead["logL"])})
             self.dead_seen.add(b)
             if n_ns and float(dead["logL"]) < float(ns.nested_samples[-2]["logL"]):
@@ -277,7 +291,8 @@ class NSMonitor:
         logZ = float(ns.state.logZ)
         cond = float(np.logaddexp(logZ, logLmax0 - it0 / float(ns.nlive)) - logZ)
         self.conditions.append((it, float(ns.condition), cond, float(ns.tolerance)))
-        if not oracles.close(ns.condition, cond, rtol=1e-12, atol=1e-12):
+        # (when the removal happened in an earlier incarnation logLmax at that time is unknown here)
+        if not pending and not oracles.close(ns.condition, cond, rtol=1e-12, atol=1e-12):
             ctx.violation("C15-condition", {"iteration": it, "reported": float(ns.condition), "recomputed": cond})
         ctx.iteration = it
         ctx.nb.note("it", it=it, d=hash_float(ns.logLmin), c=float(ns.condition))
